@@ -6,6 +6,7 @@ package lrun
 import (
 	"context"
 	"fmt"
+	"os"
 	"regexp"
 	"sort"
 	"strings"
@@ -36,6 +37,11 @@ type Config struct {
 	OnModel func(in *lref.Interp)
 	// KeepState: do not close the state (caller closes).
 	KeepState bool
+	// FileHeader, when non-empty, makes the implementation load the program
+	// through LoadFile: the text FileHeader+src is written to a file named
+	// "<string>" in the current directory (so that the chunk name, and with it
+	// every position prefix, is the same as for Load). For "#!" first lines.
+	FileHeader string
 }
 
 // ImplRun is the observation of one implementation run.
@@ -183,7 +189,17 @@ func RunImpl(src string, cfg *Config) *ImplRun {
 	if cfg.OnState != nil {
 		cfg.OnState(L, r)
 	}
-	fn, err := L.Load(strings.NewReader(src), "<string>")
+	var fn *lua.LFunction
+	var err error
+	if cfg.FileHeader != "" {
+		if werr := os.WriteFile("<string>", []byte(cfg.FileHeader+src), 0o644); werr != nil {
+			panic("lrun: cannot write the program file: " + werr.Error())
+		}
+		fn, err = L.LoadFile("<string>")
+		os.Remove("<string>")
+	} else {
+		fn, err = L.Load(strings.NewReader(src), "<string>")
+	}
 	if err != nil {
 		r.LoadErr = err.Error()
 		r.Failed = true
